@@ -333,7 +333,7 @@ fn run_case(case: &Case) -> CaseResult {
     let mut result = CaseResult::default();
     let text = case.text.as_str();
     result.text_has_comment = text.contains("--") || case.files.iter().any(|(_, c)| c.contains("--"));
-    let mut fail = |result: &mut CaseResult, kind: &str, stage: &str, panic: Option<PanicInfo>, detail: String| {
+    let fail = |result: &mut CaseResult, kind: &str, stage: &str, panic: Option<PanicInfo>, detail: String| {
         let (uncovered_tree, method_types, text_has_comment) = (result.uncovered_tree, result.method_types, result.text_has_comment);
         result.failures.push(Failure { kind: kind.to_owned(), stage: stage.to_owned(), panic, detail, config: None, uncovered_tree, method_types, text_has_comment, text: case.text.clone() });
     };
@@ -476,7 +476,6 @@ fn classify<'k>(known: &'k [Known], failure: &Failure) -> Option<&'k Known> {
             .as_ref()
             .map(|p| !k.file.is_empty() && p.file().ends_with(&k.file) && p.message.starts_with(&k.message_prefix))
             .unwrap_or(false),
-        "reference-survives-method-types" => failure.kind == "reference-survives" && failure.method_types,
         "pipeline-on-uncovered-tree" => {
             failure.uncovered_tree && failure.config.is_some() && failure.kind != "hang" && failure.stage != "configuration"
         }
@@ -840,6 +839,27 @@ fn generate_cases(rng: &mut Rng, thorough: bool, safe_depth: &BTreeMap<String, u
         configs.extend(probe_configs());
         cases.push(Case { class: "literal-classes".to_owned(), text, files: Vec::new(), configs });
     }
+    // 11. literals spanning several lines (backtick parts with `\\`+newline / `\\z`+newline, quoted
+    //     and long strings): each generator without rules, then every rule alone
+    for (index, text) in luagen::MULTILINE_TEXTS.iter().enumerate() {
+        let mut configs: Vec<String> = Vec::new();
+        for generator in luagen::GENERATORS {
+            for span in luagen::SPANS {
+                if *generator == "retain_lines" && *span != 80 {
+                    continue;
+                }
+                configs.push(luagen::configuration(&[], generator, *span, false));
+            }
+        }
+        for (k, rule) in all_rules.iter().enumerate() {
+            if *rule == "convert_require" {
+                continue;
+            }
+            let generator = if k % 2 == 0 { "retain_lines" } else { luagen::GENERATORS[1 + (k + index) % 2] };
+            configs.push(luagen::configuration(&[luagen::rule_entry(rng, rule)], generator, 80, false));
+        }
+        cases.push(Case { class: "multiline-literals".to_owned(), text: text.to_string(), files: Vec::new(), configs });
+    }
     // 9. batches with one bad member: errors are values naming the file, the rest is written
     for _ in 0..(25 * scale) {
         let good = luagen::Gen::program(rng, 5);
@@ -1135,12 +1155,10 @@ fn correspondence(report: &mut Report, rng: &mut Rng) {
         if toks.is_empty() {
             continue;
         }
-        if debug_structure(&format!("{:?}", block)).contains(METHOD_TYPES_MARKER) {
-            // outside H3: the rules do not visit the types of `obj:method<<T>>()` (known finding C12-F3)
-            corr.report.hist("rule_tree", "skipped: method-call type instantiation (outside H3)");
-            continue;
-        }
-        corr.report.hist("rule_tree", "inside H3");
+        corr.report.hist(
+            "rule_tree",
+            if debug_structure(&format!("{:?}", block)).contains(METHOD_TYPES_MARKER) { "with a method-call type instantiation" } else { "plain" },
+        );
         let tree = format!("(node ({}) ())", toks.iter().map(Tok::sexp).collect::<Vec<_>>().join(" "));
         let render = |b: &Block| -> String {
             match tokens_of_debug(&format!("{:?}", b)) {
